@@ -249,6 +249,22 @@ theorem absArrange_isSome (p : α → Bool) (cb : σ → Nat → Nat → σ) (l 
     omega
   · omega
 
+/-- the number of swaps (callback invocations) is bounded by the fuel: at most `fuel - 1` -/
+theorem absLoop_count (p : α → Bool) :
+    ∀ fuel (l : List α) (c f : Nat) (l' : List α) (c' r : Nat),
+      absLoop p (fun c _ _ => c + 1) fuel l c f = some (l', c', r) → c' + 1 ≤ c + fuel := by
+  intro fuel
+  induction fuel with
+  | zero => intro l c f l' c' r h; simp [absLoop] at h
+  | succ fuel ih =>
+    intro l c f l' c' r h
+    simp only [absLoop] at h
+    split at h
+    · have := ih _ _ _ _ _ _ h; omega
+    · simp only [Option.some.injEq, Prod.mk.injEq] at h
+      obtain ⟨_, rfl, _⟩ := h
+      omega
+
 /-! ### the property, for all tables -/
 
 /-- **C10 on the abstract table**: for every table whose entry 0 is local (the null symbol)
